@@ -70,7 +70,10 @@ def tok_pevents(events):
 def annotate_propagates(recs):
     """Adds r['props'] = {calls, assigns, ok}: every call of Solver::propagate in the log makes exactly the assignments
     (literal, level, reason clause, in order) of the propagate model (coq/Cdcl/Propagate.v: watch lists, moves of watches,
-    assertions first) and ends with the same conflict clause or without one."""
+    assertions first) and ends with the same conflict clause or without one; hyps: the hypotheses of propagate_sound held
+    at every call; comp_bad: number of calls at which the hypotheses of propagate_complete (every watching clause in its
+    lists, no watched clause -- outside those born with both watched literals false -- with both watched literals false by
+    propagated entries, propagate_index within the trail) did NOT hold: must be 0."""
     lines = []
     for i, r in enumerate(recs):
         d = r["obs"].get("dump")
@@ -92,14 +95,14 @@ def annotate_propagates(recs):
         if v.startswith("error"):
             r["props"] = {"error": v}
         else:
-            nc, na, ok_, hyp = v.split()
-            r["props"] = {"calls": int(nc), "assigns": int(na), "ok": ok_ == "1", "hyps": hyp == "1"}
+            nc, na, ok_, hyp, nbad = v.split()
+            r["props"] = {"calls": int(nc), "assigns": int(na), "ok": ok_ == "1", "hyps": hyp == "1", "comp_bad": int(nbad)}
     return recs
 
 
 def ok_propagates(r):
     p = r.get("props")
-    return p is None or ("error" not in p and p["ok"] and p["hyps"])
+    return p is None or ("error" not in p and p["ok"] and p["hyps"] and p.get("comp_bad", 0) == 0)
 
 
 def annotate_decides(recs):
